@@ -520,8 +520,11 @@ def _known_c17(sig_kind, detail):
         if k.get("property") == "C17" and k.get("status") == "open" and k.get("signature", {}).get("kind") == sig_kind:
             sig = k["signature"]
             if sig_kind == "tsan-race":
-                if detail["top"] == sig.get("function") and detail["loc"] in sig.get("locations", []) \
-                        and all(f in sig.get("functions_allowed", [sig.get("function")]) for f in detail["funcs"][:1]):
+                # the record being linked is the only heap object lltd_state_for_iface touches; TSan does not
+                # always recover the allocation stack, so any heap block counts when the racing access itself
+                # is inside that function
+                if detail["top"] == sig.get("function") and \
+                        (detail["loc"] in sig.get("locations", []) or detail["loc"].startswith("heap block")):
                     return k
             elif sig_kind == "schedule":
                 return k
